@@ -178,3 +178,223 @@ def opt_same(a, b):
     if is_none(a) or is_none(b):
         return is_none(a) and is_none(b)
     return eq(val(a), val(b))
+
+
+# ============================================================================================ Padding
+from contracts.C19_space import clrp as CLRP  # noqa: E402
+from spec.layout import requested_size  # noqa: E402
+from urwid.widget import padding as _padding  # noqa: E402
+
+CLRP.deterministic = True
+PA = "urwid/widget/padding.py:"
+PADDING = Obj(
+    _padding.Padding,
+    dict(
+        _original_widget=Opaque("Widget"),
+        left=Int, right=Int,
+        _align_type=Enum("left", "center", "right", "relative"), _align_amount=Int,
+        _width_type=Enum("given", "relative", "pack", "clip"), _width_amount=Opt(Int),
+        min_width=Opt(Int),
+    ),
+)
+PINL = ("urwid/widget/widget.py:Widget.pack", PA + "Padding.pack", PA + "Padding.sizing", "urwid/widget/widget_decoration.py:WidgetDecoration.original_widget")
+
+
+def padding_wf(s):
+    wa = s._width_amount
+    return both(
+        0 <= s.left, s.left < PARTMAX, 0 <= s.right, s.right < PARTMAX, 0 <= s._align_amount, s._align_amount <= 100,
+        implies(either(s._width_type == "pack", s._width_type == "clip"), mk_bool(wa.isnone)),
+        implies(s._width_type == "given", both(neg(mk_bool(wa.isnone)), wa.val >= 0, wa.val < PARTMAX)),
+        implies(s._width_type == "relative", both(neg(mk_bool(wa.isnone)), wa.val >= 0, wa.val <= 100)),
+        either(mk_bool(s.min_width.isnone), both(s.min_width.val >= 0, s.min_width.val < PARTMAX)),
+    )
+
+
+def padding_req(s, size, focus):
+    """(kind, requested width, min_width) handed to the calculator, per the documented width options."""
+    W = PROTOCOLS["Widget"]
+    st = cur()
+    maxcol = size[0]
+    w = s._original_widget
+    if s._width_type == "clip":
+        return "clip", W.call_quiet(st, w, "pack", dict(size=(), focus=focus))[0], None
+    if s._width_type == "pack":
+        mw = 0 if is_none(s.min_width) else val(s.min_width)
+        maxwidth = imax(maxcol - s.left - s.right, mw)
+        return "given", W.call_quiet(st, w, "pack", dict(size=(maxwidth,), focus=focus))[0], s.min_width
+    if s._width_type == "given":
+        return "given", val(s._width_amount), s.min_width
+    return "relative", val(s._width_amount), s.min_width
+
+
+@contract(PA + "Padding.padding_values", property="C19", inline=PINL, deterministic=True, replayable=False)
+class padding_values:
+    self_shape = PADDING
+    params = dict(size=Union(Tup(Int, Int), Tup(Int)), focus=Bool)
+    result = Tup(Int, Int)
+
+    def requires(s, a):
+        return both(padding_wf(s), size_ok(a.size))
+
+    def ensures(old, s, a, result):
+        kind, req, mw = padding_req(old, a.size, a.focus)
+        want = CLRP.spec_value(None, maxcol=a.size[0], align_type=old._align_type, align_amount=old._align_amount,
+                               width_type=kind, width_amount=req, min_width=mw, left=old.left, right=old.right)
+        yield "is-the-calculator-on-the-documented-request", both(result[0] == want[0], result[1] == want[1])
+        yield "frame", both(*[eq(s.fields[k], old.fields[k]) for k in ("left", "right", "_align_type", "_align_amount", "_width_type")])
+
+
+PV = padding_values
+
+
+def padding_fit(s, size, focus):
+    kind, req, mw = padding_req(s, size, focus)
+    if kind == "clip":
+        return True
+    want = requested_size(size[0], kind, req, mw, s.left, s.right)
+    return both(want + s.left + s.right <= size[0], want >= 1)
+
+
+def _padding_requires(s, a, focus):
+    return both(padding_wf(s), size_ok(a.size), a.size[0] >= 1, padding_fit(s, a.size, focus), neg(s._width_type == "clip"))
+
+
+def padding_child_size(size, left, right):
+    return (size[0] - left - right,) + tuple(size[1:])
+
+
+@contract(PA + "Padding.get_cursor_coords", property="C09", inline=PINL, replayable=False)
+class padding_gcc:
+    self_shape = PADDING
+    params = dict(size=Union(Tup(Int, Int), Tup(Int)))
+    result = Opt(Tup(Int, Int))
+
+    def requires(s, a):
+        return _padding_requires(s, a, True)
+
+    def ensures(old, s, a, result):
+        W = PROTOCOLS["Widget"]
+        w = old._original_widget
+        if not W.hasattr(None, cur(), w, "get_cursor_coords"):
+            yield "no-cursor-protocol", is_none(result)
+            return
+        left, right = PV.spec_value(old, size=a.size, focus=True)
+        cs = padding_child_size(a.size, left, right)
+        cc = W.call_quiet(cur(), w, "get_cursor_coords", dict(size=cs))
+        yield "child-cursor-shifted-by-left", opt_eq_shift(result, cc, left, 0)
+
+
+@contract(PA + "Padding.render", property=("C09", "C01"), inline=PINL, replayable=False)
+class padding_render:
+    self_shape = PADDING
+    params = dict(size=Union(Tup(Int, Int), Tup(Int)), focus=Bool)
+    result = CCANVAS
+
+    def requires(s, a):
+        return _padding_requires(s, a, a.focus)
+
+    def ensures(old, s, a, r):
+        W = PROTOCOLS["Widget"]
+        w = old._original_widget
+        left, right = PV.spec_value(old, size=a.size, focus=a.focus)
+        cs = padding_child_size(a.size, left, right)
+        child = W.call_quiet(cur(), w, "render", dict(size=cs, focus=a.focus))
+        yield "width", r.ncols == a.size[0]
+        yield "height-is-childs", r.nrows == child.nrows
+        if len(a.size) == 2:
+            yield "box-height", r.nrows == a.size[1]
+        rc = calls("render")
+        yield "child-rendered-once-at-its-size", both(len(rc) == 1, eq(rc[0][3]["size"], cs) if rc else False, eq(rc[0][3]["focus"], a.focus) if rc else False)
+        yield "cursor-is-childs-shifted-by-left", opt_eq_shift(r.cursor, child.cursor, left, 0)
+        yield "child-drawn-at-column-left", both(r.src == child.src, r.left_off == -left, r.top_off == 0)
+
+
+@contract(PA + "Padding.rows", property="C01", inline=PINL, replayable=False)
+class padding_rows:
+    self_shape = PADDING
+    params = dict(size=Tup(Int), focus=Bool)
+    result = Int
+
+    def requires(s, a):
+        return _padding_requires(s, a, a.focus)
+
+    def ensures(old, s, a, result):
+        W = PROTOCOLS["Widget"]
+        left, right = PV.spec_value(old, size=a.size, focus=a.focus)
+        cs = padding_child_size(a.size, left, right)
+        child = W.call_quiet(cur(), old._original_widget, "render", dict(size=cs, focus=a.focus))
+        yield "rows-equal-rendered-rows", result == child.nrows
+
+
+@contract(PA + "Padding.mouse_event", property="C09", inline=PINL, replayable=False)
+class padding_mouse:
+    self_shape = PADDING
+    params = dict(size=Union(Tup(Int, Int), Tup(Int)), event=Opaque("Key"), button=Int, col=Int, row=Int, focus=Bool)
+    result = Bool
+
+    def requires(s, a):
+        return both(_padding_requires(s, a, a.focus), 0 <= a.col, a.col < a.size[0], 0 <= a.row)
+
+    def ensures(old, s, a, result):
+        W = PROTOCOLS["Widget"]
+        w = old._original_widget
+        left, right = PV.spec_value(old, size=a.size, focus=a.focus)
+        cs = padding_child_size(a.size, left, right)
+        me = calls("mouse_event")
+        inside = both(left <= a.col, a.col < a.size[0] - right)
+        if not W.hasattr(None, cur(), w, "mouse_event"):
+            yield "no-handler", both(len(me) == 0, result == False)  # noqa: E712
+        elif inside:
+            yield "delivered-to-child-once", len(me) == 1
+            if me:
+                v = me[0][3]
+                yield "child-relative-coordinates", both(eq(v["size"], cs), v["col"] == a.col - left, v["row"] == a.row, v["button"] == a.button, eq(v["focus"], a.focus), eq(v["event"], a.event))
+                yield "result-is-childs", eq(result, me[0][4])
+        else:
+            yield "padding-cell-not-delivered", both(len(me) == 0, result == False)  # noqa: E712
+
+
+@contract(PA + "Padding.move_cursor_to_coords", property="C09", inline=PINL, replayable=False)
+class padding_mctc:
+    self_shape = PADDING
+    params = dict(size=Union(Tup(Int, Int), Tup(Int)), x=Int, y=Int)
+    result = Bool
+
+    def requires(s, a):
+        return both(_padding_requires(s, a, True), 0 <= a.x, a.x < a.size[0], 0 <= a.y)
+
+    def ensures(old, s, a, result):
+        W = PROTOCOLS["Widget"]
+        w = old._original_widget
+        left, right = PV.spec_value(old, size=a.size, focus=True)
+        cs = padding_child_size(a.size, left, right)
+        mv = calls("move_cursor_to_coords")
+        if not W.hasattr(None, cur(), w, "move_cursor_to_coords"):
+            yield "no-cursor-protocol", both(len(mv) == 0, result == True)  # noqa: E712
+            return
+        yield "forwarded-once", len(mv) == 1
+        if mv:
+            v = mv[0][3]
+            # a cell in the padding is clamped to the nearest child column (documented behaviour), others translated
+            want_x = imax(0, imin(a.x - left, cs[0] - 1))
+            yield "translated-cell", both(eq(v["size"], cs), v["col"] == want_x, v["row"] == a.y)
+            yield "succeeds-iff-child-accepts", eq(result, mv[0][4])
+
+
+@contract(PA + "Padding.keypress", property=("C09", "C08"), inline=PINL, replayable=False)
+class padding_keypress:
+    self_shape = PADDING
+    params = dict(size=Union(Tup(Int, Int), Tup(Int)), key=Opaque("Key"))
+    result = Opt(Opaque("Key"))
+
+    def requires(s, a):
+        return _padding_requires(s, a, True)
+
+    def ensures(old, s, a, result):
+        left, right = PV.spec_value(old, size=a.size, focus=True)
+        cs = padding_child_size(a.size, left, right)
+        kp = calls("keypress")
+        yield "offered-once-with-the-rendered-size", both(len(kp) == 1, eq(kp[0][3]["size"], cs) if kp else False, eq(kp[0][3]["key"], a.key) if kp else False)
+        if kp:
+            yield "result-is-childs", opt_same(result, kp[0][4])
